@@ -212,15 +212,15 @@ type SignerSc struct {
 }
 
 type C12Sc struct {
-	Signer    *SignerSc  `json:"signer,omitempty"`
-	Op        int        `json:"op"` // index into opCases; -1 = batch of two
-	Batch     []int      `json:"batch,omitempty"`
+	Signer *SignerSc `json:"signer,omitempty"`
+	Op     int       `json:"op"` // index into opCases; -1 = batch of two
+	Batch  []int     `json:"batch,omitempty"`
 	// BatchOption: 0 Client.Batch; 1..3 Client.BatchOpt with OnBatchErr(Continue / Stop / Undo). The option tells the
 	// server what to do; it does not entitle a response to have fewer items than the request
-	BatchOption int `json:"batch_option,omitempty"`
-	Subst     *RespSubst `json:"subst,omitempty"`
-	Discovery *RespSubst `json:"discovery,omitempty"` // nil: version enforced, no discovery exchange
-	Chunk     int        `json:"chunk,omitempty"`
+	BatchOption int        `json:"batch_option,omitempty"`
+	Subst       *RespSubst `json:"subst,omitempty"`
+	Discovery   *RespSubst `json:"discovery,omitempty"` // nil: version enforced, no discovery exchange
+	Chunk       int        `json:"chunk,omitempty"`
 }
 
 var statusVals = []kmip.ResultStatus{kmip.ResultStatusSuccess, kmip.ResultStatusOperationFailed, kmip.ResultStatusOperationPending, kmip.ResultStatusOperationUndone, kmip.ResultStatus(9)}
